@@ -666,7 +666,13 @@ func (w *world) pull(c, s *node, breakAt int, _ int) {
 		c.receiveSomePrefix(conn.received)
 	}
 	c.check("pull: client applied what it received")
-	w.r.Event("pull", "%s <- %s: pushed=%d asked=%d received=%d broke=%v server=%v", c.name, s.name, len(conn.pushed), conn.asked, len(conn.received), conn.broke, errS(conn.srvErr))
+	// on a broken stream the server side ends with "ok" or with a pipe error depending on how far it got when the
+	// pipe closed under it: not part of the record
+	srvText := "(stream broken)"
+	if !conn.broke {
+		srvText = errS(conn.srvErr)
+	}
+	w.r.Event("pull", "%s <- %s: pushed=%d asked=%d received=%d broke=%v server=%v", c.name, s.name, len(conn.pushed), conn.asked, len(conn.received), conn.broke, srvText)
 	// one complete exchange makes the two stores equal (both know the whole ACL, nothing failed)
 	if !conn.broke && conn.srvErr == nil && !w.lagRun && c.plan == nil && s.plan == nil {
 		a, b := stored(c), stored(s)
